@@ -8,7 +8,7 @@
    directly in an attribute graph of u"; before a b l = a occurs strictly before b in l;
    wf gr = no node and no graph object occurs twice in the scope. *)
 From Coq Require Import ZArith List Bool Arith Lia Permutation Relations.
-From IRV Require Import Base.Exn C12.Model C12.Proofs1 C12.Proofs2 C12.Proofs3 C12.Proofs4 C12.Proofs5 C12.Proofs6 C12.Proofs7.
+From IRV Require Import Base.Exn C12.Model C12.Proofs1 C12.Proofs2 C12.Proofs3 C12.Proofs4 C12.Proofs5 C12.Proofs6 C12.Proofs7 C12.GenModel Gen.C12Gen C12.GenEquiv.
 Import ListNotations.
 
 (* Sample scope: graph 0 = [n0 (If with body graph 1 = [n2 uses n1; n3 uses n2]); n1; n4 uses n0, n1(twice), None].
@@ -115,3 +115,11 @@ Theorem C12_deterministic :
   forall gr1 gr2, gr1 = gr2 -> sort_graph gr1 = sort_graph gr2.
 Proof. intros gr1 gr2 E. rewrite E. reflexivity. Qed.
 Print Assumptions C12_deterministic.
+
+(* The source of Graph.sort, translated statement by statement on every run (Gen/C12Gen.gen_src: index key,
+   depth initial value / increment / decrement, ready and push tests, counter, cycle test, exception, order of
+   "cycle check" and "re-link", reversal) and run by the parametrised algorithm GenModel.gsort (heapq by its
+   contract: pop the smallest key), is the model every theorem above is about. *)
+Theorem C12_source_is_model : forall gr, gsort gen_src gr = sort_graph gr.
+Proof. exact gen_sort_is_model. Qed.
+Print Assumptions C12_source_is_model.
